@@ -553,3 +553,44 @@ Theorem history_spec h s : Forall req_ok h ->
 Proof. intros H. apply history_gen; [intros s'; reflexivity|exact H]. Qed.
 
 End P.
+
+(* ================= a concrete sort satisfying the hypotheses ================= *)
+(* [isort] (stable insertion sort by slot, used to execute the model) returns a permutation
+   sorted by slot, so the section hypotheses above are satisfiable. *)
+Section ISort.
+Variable V : Type.
+Notation item := (item V).
+
+Lemma insert_by_slot_perm (e : item) l : Permutation (e :: l) (insert_by_slot e l).
+Proof.
+  induction l as [|x r IH]; cbn [insert_by_slot]; [apply Permutation_refl|].
+  destruct (islot e <=? islot x); [apply Permutation_refl|].
+  eapply perm_trans; [apply perm_swap|]. now apply perm_skip.
+Qed.
+
+Lemma isort_perm (l : list item) : Permutation l (isort l).
+Proof.
+  induction l as [|e l IH]; cbn [isort fold_right]; [constructor|].
+  eapply perm_trans; [apply perm_skip; exact IH|]. apply insert_by_slot_perm.
+Qed.
+
+Lemma insert_by_slot_sorted (e : item) l :
+  Sorted (slot_le V) l -> Sorted (slot_le V) (insert_by_slot e l).
+Proof.
+  induction l as [|x r IH]; cbn [insert_by_slot]; intros Hs.
+  - repeat constructor.
+  - destruct (N.leb_spec (islot e) (islot x)) as [Hle|Hgt].
+    + constructor; [exact Hs|]. constructor. exact Hle.
+    + inversion Hs as [|? ? Hr Hhd]; subst. constructor; [now apply IH|].
+      destruct r as [|y r']; cbn [insert_by_slot].
+      * constructor. unfold slot_le. lia.
+      * inversion Hhd; subst. destruct (islot e <=? islot y); constructor; [unfold slot_le; lia|assumption].
+Qed.
+
+Lemma isort_sorted (l : list item) : Sorted (slot_le V) (isort l).
+Proof.
+  induction l as [|e l IH]; cbn [isort fold_right]; [constructor|].
+  now apply insert_by_slot_sorted.
+Qed.
+
+End ISort.
